@@ -173,15 +173,45 @@ def plateau_cuts(n, seed, full=True):
     return sorted(k for k in cuts if 1 <= k <= n)
 
 
+def zerovol_layout(n, seed):
+    """stretches [(start, end)) of a 'zerovol' series in which nothing is traded (volume exactly 0) while the price keeps
+    moving: 15-60 candles each, at least one of 25+, and (odd seeds) one at the very start of the series"""
+    rng = random.Random("zerovol-layout-%d-%d" % (n, seed))
+    out = []
+    i = 0
+    if seed % 2 == 1:
+        out.append((0, rng.choice([1, 8, 22])))
+        i = out[-1][1]
+    i += rng.randint(25, 45)
+    first = True
+    while i + 70 < n:
+        ln = rng.randint(25, 60) if first else rng.randint(15, 60)
+        first = False
+        out.append((i, min(i + ln, n - 12)))
+        i = out[-1][1] + rng.randint(30, 55)
+    return out
+
+
+def zerovol_cuts(n, seed, full=True):
+    cuts = set()
+    for a, b in zerovol_layout(n, seed):
+        cuts.update([(a + b) // 2, b - 1, b, b + 1, b + 3, b + 5, b + 12] if full else [(a + b) // 2, b, b + 1, b + 5])
+    cuts.add(n)
+    return sorted(k for k in cuts if 1 <= k <= n)
+
+
 def make_series(kind, n, seed, base=100, vol=50):
     """integer-lattice candles [ts, open, close, high, low, volume]; exact in float64"""
     rng = random.Random("%s-%d-%d" % (kind, n, seed))
     c = np.zeros((n, 6))
     p = base
-    flat_at = set()
+    flat_at, novol_at = set(), set()
     if kind == "plateau":
         for a, b in plateau_layout(n, seed):
             flat_at.update(range(a, b))
+    if kind == "zerovol":
+        for a, b in zerovol_layout(n, seed):
+            novol_at.update(range(a, b))
     for i in range(n):
         o = p
         if kind == "flat" or i in flat_at:
@@ -211,6 +241,8 @@ def make_series(kind, n, seed, base=100, vol=50):
                 if rng.random() < 0.5:
                     cl = rng.randint(l, h)
             v = rng.randint(1, vol) * (10 if kind == "spike" and rng.random() < 0.05 else 1)
+        if i in novol_at:
+            v = 0
         c[i] = (T0 + i * MIN, o, cl, h, l, v)
         p = cl
     return c
